@@ -229,3 +229,22 @@ Proof.
   unfold calc_prop_case. destruct (calc_decode inp) as [K ops]. cbn [fst snd].
   apply check_steps_sound.
 Qed.
+
+(* ---------- two levels: the parent's calculator feeds the child's (refreshRuntimeNoLock) ----------
+   Whatever the histories of the two calculators were: when the runtime reported for child c by
+   its parent's calculator is handed to c's own calculator as the total (step 3 of
+   refreshRuntimeNoLock), what that calculator reports for a grandchild g is the from-scratch
+   division, top-down: first among c's siblings, then among g's siblings with c's share. *)
+Theorem calc_two_level opsP opsC c g qc qg :
+  tab_find c (w_tab (run opsP)) = Some qc ->
+  tab_find g (w_tab (run (opsC ++ [OSetTotal (q_runtime qc)]))) = Some qg ->
+  exists rc,
+    runtime_of c (redistribution (cu_total (cur_of opsP)) (nodes_of (cu_figs (cur_of opsP)))) = Some rc
+    /\ runtime_of g (redistribution rc (nodes_of (cu_figs (cur_of opsC)))) = Some (q_runtime qg).
+Proof.
+  intros Hc Hg.
+  pose proof (history_independent opsP c) as HP. cbv zeta in HP. rewrite Hc in HP.
+  pose proof (history_independent (opsC ++ [OSetTotal (q_runtime qc)]) g) as HC. cbv zeta in HC.
+  rewrite Hg in HC. rewrite cur_of_app in HC. cbn [fold_left cur_step cu_total cu_figs] in HC.
+  exists (q_runtime qc). split; [apply HP|apply HC].
+Qed.
